@@ -108,6 +108,14 @@ type c05Typed struct {
 	K1 json.RawMessage   `json:"k1"`
 }
 
+// fields whose value is skipped rather than decoded (struct{} has nothing to decode into)
+type c05Empty struct {
+	A  struct{}  `json:"a"`
+	B  int       `json:"b"`
+	K0 struct{}  `json:"k0"`
+	K1 *struct{} `json:"k1"`
+}
+
 var c05NoHTML = sonic.Config{SortMapKeys: true}.Froze()
 
 var c05Entries = []c05Entry{
@@ -139,6 +147,13 @@ var c05Entries = []c05Entry{
 		var v []byte
 		err := sonic.UnmarshalString(s, &v)
 		return fmt.Sprintf("%q", v) + " " + errS(err)
+	}},
+	{"Decoder.DisallowUnknownFields(struct with empty-struct fields)", func(s string) string {
+		var v c05Empty
+		d := decoder.NewDecoder(s)
+		d.DisallowUnknownFields()
+		err := d.Decode(&v)
+		return deepShow(reflect.ValueOf(v)) + " " + errS(err)
 	}},
 	{"UnmarshalString(json.Number)", func(s string) string {
 		var v json.Number
@@ -332,14 +347,15 @@ func (v *c05Visitor) OnFloat64(f float64, n json.Number) error {
 	fmt.Fprintf(&v.sb, "f%v/%s;", f, n)
 	return nil
 }
-func (v *c05Visitor) OnObjectBegin(c int) error    { v.sb.WriteString("{;"); return nil }
-func (v *c05Visitor) OnObjectKey(k string) error   { fmt.Fprintf(&v.sb, "k%q;", k); return nil }
-func (v *c05Visitor) OnObjectEnd() error           { v.sb.WriteString("};"); return nil }
-func (v *c05Visitor) OnArrayBegin(c int) error     { v.sb.WriteString("[;"); return nil }
-func (v *c05Visitor) OnArrayEnd() error            { v.sb.WriteString("];"); return nil }
+func (v *c05Visitor) OnObjectBegin(c int) error  { v.sb.WriteString("{;"); return nil }
+func (v *c05Visitor) OnObjectKey(k string) error { fmt.Fprintf(&v.sb, "k%q;", k); return nil }
+func (v *c05Visitor) OnObjectEnd() error         { v.sb.WriteString("};"); return nil }
+func (v *c05Visitor) OnArrayBegin(c int) error   { v.sb.WriteString("[;"); return nil }
+func (v *c05Visitor) OnArrayEnd() error          { v.sb.WriteString("];"); return nil }
 
 var c05Frags = []string{"t", "tr", "tru", "true", "n", "nu", "nul", "null", "f", "fa", "fal", "fals", "false",
 	`"`, `"a`, `"abc\`, `"\u12`, `"\ud800`, `"\ud800\u`, `"\ud800\udc0`, "-", "1", "12", "1.", "1e", "1e+", "-0", "0.1",
+	`{"a":{}}`, `{"a":{},"b":1}`, `{"k0":{}}`, `{"a":{"x":1}}`, `{"k1":{}}`, `{"a":[]}`, `{"b":2,"a":{} }`,
 	`"123`, `"-4.5e3`, `{"12`, `{"-7`, `{"12"`, `{"a":"123`, `{"qi":"45`, `{"n":"6`, `{"n":"6.5`, `"12"`,
 	"[", "[1", "[1,", `{"a"`, `{"a":`, `{"a":[`, " ", "", "[ ", "{", "{\n\t ", `{"a":[ `, `[[`, `[{`, `{"a":{`, "[1, 2 ", "[1,\n", `{"a": 1 `, `{"a":1,`, `{"a":1, `, `"abc" `, "1 ", "true ", "[1] ", "\t", " \n", "\xe2\x82", "\xff", "\xf0\x9f\x98", `\`, `\u`, `\u00`, `a\`, `<`, `&`, "\xe2\x80"}
 var c05Conts = []string{"rue", "ull", "alse", `"`, `\"`, `\\`, "0123456789", "}", "]", "e5", ".5", "\x80\x80\x80", "      ", `"}`, `":1}`, "\x00\x00\x00\x00", "u0041", "dc00", `"]}`, ",1]", "ue}", "ll]"}
@@ -394,7 +410,7 @@ func runC05(c *Ctx) Result {
 		if g.d(2) == 0 {
 			num = `"` + num + `"` // json.Number accepts the quoted form
 		}
-		parts := []string{`"b":"` + b64 + `"`, `"n":` + num,`"m":{` + quoteJSON(g.str()) + `:` + quoteJSON(g.str()) + `}`,
+		parts := []string{`"b":"` + b64 + `"`, `"n":` + num, `"m":{` + quoteJSON(g.str()) + `:` + quoteJSON(g.str()) + `}`,
 			`"q":` + quoteJSON(quoteJSON(g.str())), `"qi":"` + strconv.Itoa(g.d(100000)-500) + `"`, `"a":[` + quoteJSON(g.str()) + `,` + quoteJSON(g.str()) + `]`,
 			`"k0":` + g.Doc(), `"k1":` + g.Doc()}
 		for i := len(parts) - 1; i > 0; i-- {
